@@ -43,11 +43,12 @@ Record Defects := {
   d_late_child : bool;            (* BeginMultiTXs accepts a new child of a group whose global state is final *)
   d_fail_ndst_lost : bool;        (* Report: on a failure receipt the children are overwritten with BEGIN_FAILURE before
                                      the SUCCESS ones are collected, so NotifyDstIBTPIDs is always empty *)
-  d_interhub_timeout : bool       (* setTimeoutList registers H+T for a request to a remote BitXHub although the
+  d_interhub_timeout : bool;      (* setTimeoutList registers H+T for a request to a remote BitXHub although the
                                      transaction manager recorded "no timeout" for it (source-hub role) *)
+  d_receipt_group_skip : bool     (* setTimeoutList skips every IBTP with a Group field, receipts included *)
 }.
-Definition cfg_fixed : Defects := Build_Defects false false false false false false false false false.
-Definition cfg_faithful : Defects := Build_Defects true true true true true true true true true.
+Definition cfg_fixed : Defects := Build_Defects false false false false false false false false false false.
+Definition cfg_faithful : Defects := Build_Defects true true true true true true true true true true.
 
 (** * records *)
 Record ginfo := {
